@@ -158,10 +158,13 @@ def hsOf (enc : Nat) : Nat :=
   | 3 => 19
   | _ => 0
 
+/-- one iteration of `nextChunk`: a chunk is handed out, the loop goes round again (`continue`), or it
+returns `io.EOF` / one of the invalid-record errors -/
 inductive Step where
   | done (r : RS) (pl : List UInt8) (last : Bool)
   | cont (r : RS)
-  | fail (e : CErr)
+  | eof
+  | invalid
   deriving DecidableEq, Repr
 
 /-- `r.end = r.n; continue` -/
@@ -172,35 +175,35 @@ def chunkStep (c : Cfg) (wantFirst : Bool) (r : RS) : Step :=
   let a := avail c r
   if 7 ≤ a then
     match rdHd r.s with
-    | none => .fail .invalid
+    | none => .invalid
     | some h =>
-      if 13 ≤ h.enc then .fail .invalid
+      if 13 ≤ h.enc then .invalid
       else if h.checksum = 0 ∧ h.length = 0 ∧ h.enc = 0 then
         -- a zeroed header: fine only where no real header fits any more
         if a < 11 then .cont (r.skipBlock c)
         else if a < 19 then
-          if (r.s.take a).all (· == 0) then .cont (r.skipBlock c) else .fail .invalid
-        else .fail .invalid
-      else if h.enc = 0 then .fail .invalid
+          if (r.s.take a).all (· == 0) then .cont (r.skipBlock c) else .invalid
+        else .invalid
+      else if h.enc = 0 then .invalid
       else
         let hs := hsOf h.enc
-        if 2 ≤ wireOf h.enc ∧ a < hs then .fail .invalid
+        if 2 ≤ wireOf h.enc ∧ a < hs then .invalid
         else if 2 ≤ wireOf h.enc ∧ rdLogNum r.s ≠ c.logNum then
           -- an EOF trailer carries the next log number
-          if rdLogNum r.s = (c.logNum + 1) % two32 ∧ wantFirst then .fail .eof else .fail .invalid
-        else if a < hs + h.length then .fail .invalid
-        else if h.checksum ≠ c.crc ((r.s.drop 6).take (hs - 6 + h.length)) then .fail .invalid
+          if rdLogNum r.s = (c.logNum + 1) % two32 ∧ wantFirst then .eof else .invalid
+        else if a < hs + h.length then .invalid
+        else if h.checksum ≠ c.crc ((r.s.drop 6).take (hs - 6 + h.length)) then .invalid
         else
           let r' := { r with i := r.i + hs + h.length, s := r.s.drop (hs + h.length) }
           if wantFirst ∧ posOf h.enc ≠ 1 ∧ posOf h.enc ≠ 2 then .cont r'
           else .done r' ((r.s.drop hs).take h.length) (posOf h.enc = 1 ∨ posOf h.enc = 4)
   else if r.started ∧ r.i + a < c.B then
     -- the last block is short: `r.n < blockSize && r.blockNum >= 0`
-    if wantFirst ∧ a = 0 then .fail .eof else .fail .invalid
+    if wantFirst ∧ a = 0 then .eof else .invalid
   else
     -- `io.ReadFull` of the next block (fewer than 7 bytes at the end of a full block are passed over)
     let s' := r.s.drop a
-    if s'.isEmpty then (if wantFirst then .fail .eof else .fail .invalid)
+    if s'.isEmpty then (if wantFirst then .eof else .invalid)
     else .cont { blk := if r.started then r.blk + c.B else 0, i := 0, s := s', started := true }
 
 /-- `Reader.nextChunk(wantFirst)` -/
@@ -209,7 +212,8 @@ def nextChunk (c : Cfg) (wantFirst : Bool) : Nat → RS → Except CErr (RS × L
   | fuel + 1, r =>
     match chunkStep c wantFirst r with
     | .done r' pl last => .ok (r', pl, last)
-    | .fail e => .error e
+    | .eof => .error .eof
+    | .invalid => .error .invalid
     | .cont r' => nextChunk c wantFirst fuel r'
 
 /-- the rest of a record: `singleReader.Read` calls `nextChunk(false)` until a chunk says "last" -/
